@@ -126,26 +126,35 @@ Section TreeSound.
   Proof.
     cbn [check_tree]. rewrite andb_true_iff, negb_true_iff, Z.eqb_neq. intros [Hne H].
     destruct (dget tid (tensors n)) as [t|] eqn:Et; [|discriminate].
-    rewrite !andb_true_iff in H. destruct H as [[[H1 H2] H3] H4].
+    rewrite !andb_true_iff in H. destruct H as [[[[H1 H2] H3] H4] H5].
     apply Nat.eqb_eq in H1, H2. apply (list_eqb_eq _ legeqb_eq) in H3.
-    apply (list_eqb_eq _ (fun a b => proj1 (Nat.eqb_eq a b))) in H4. subst a k.
+    apply (list_eqb_eq _ (fun a b => proj1 (Nat.eqb_eq a b))) in H4. subst a.
     set (nd := length (t_bids t)) in *.
-    exists (t_shape t, data (t_ref t)). cbn [tree_eval]. rewrite Et. split; [reflexivity|].
+    assert (Lk : length k = nd) by (rewrite H4; unfold inv_perm; rewrite map_length, seq_length; exact H2).
+    assert (Hok : forall ax, (ax < nd)%nat -> nth (nth ax k O) o nd = ax).
+    { intros ax Hax. rewrite forallb_forall in H5. apply Nat.eqb_eq. apply H5. apply in_seq. lia. }
+    exists (tv_transpose (t_shape t, data (t_ref t)) o). cbn [tree_eval]. rewrite Et. split; [reflexivity|].
     assert (Tg : tgetn tid = t) by (unfold tgetn; rewrite Et; reflexivity).
-    assert (Tr : forall ax, (ax < nd)%nat -> trackd (TLeaf tid o (map (fun i => (tid, i)) (seq 0 nd)) (seq 0 nd)) (tid, ax) = ax).
+    assert (Tr : forall ax, (ax < nd)%nat -> trackd (TLeaf tid o (map (fun i => (tid, i)) (seq 0 nd)) k) (tid, ax) = nth ax k O).
     { intros ax Hax. unfold trackd, track_of. cbn [tr_oax tr_trk]. rewrite leg_index_seq by assumption. cbn.
-      rewrite (nth_error_nth' _ O) by (rewrite seq_length; assumption). rewrite seq_nth by assumption. reflexivity. }
-    constructor; cbn [fst snd tr_out tr_oax leaves_of closed_of].
+      rewrite (nth_error_nth' _ O) by (rewrite Lk; assumption). reflexivity. }
+    constructor; unfold tv_transpose; cbn [fst snd tr_out tr_oax leaves_of closed_of].
     - intros y Hy. cbn [kdB map ksum]. unfold term. cbn [leaves_of map lprod fold_right].
-      unfold leaf_term. rewrite Tg. cbv zeta. fold nd.
-      replace (map (fun ax => rd _ e0 y (tid, ax)) (seq 0 nd)) with y; [rewrite kmul_1_r; reflexivity|].
-      rewrite <- (map_nth_seq y O) at 1. rewrite Hy, H2. apply map_ext_in. intros ax Hax. apply in_seq in Hax.
+      unfold leaf_term. rewrite Tg. cbv zeta. fold nd. rewrite <- H4.
+      replace (map (fun ax => rd _ e0 y (tid, ax)) (seq 0 nd)) with (pick O y k); [rewrite kmul_1_r; reflexivity|].
+      unfold pick. rewrite <- (map_nth_seq k O) at 1. rewrite map_map, Lk. apply map_ext_in. intros ax Hax. apply in_seq in Hax.
       unfold rd. cbn [closed_of zmem existsb]. rewrite Tr by lia. reflexivity.
-    - congruence.
+    - unfold pick. rewrite map_length. reflexivity.
     - intros e He. apply in_map_iff in He. destruct He as [ax [<- Hax]]. apply in_seq in Hax.
       rewrite Tr by lia. unfold bondd. cbn [fst snd]. rewrite Et.
       assert (Hb : nth_error (t_bids t) ax = Some (nth ax (t_bids t) 0%Z)) by (apply nth_error_nth'; lia).
-      pose proof (bond_dim_spec n tid t ax _ W0 (dget_In _ _ _ Et) Hb) as S. apply nth_error_nth with (d := O) in S. exact S.
+      pose proof (bond_dim_spec n tid t ax _ W0 (dget_In _ _ _ Et) Hb) as S. apply nth_error_nth with (d := O) in S.
+      rewrite <- S. set (j := nth ax k O).
+      assert (Hj : (j < length o)%nat).
+      { destruct (Nat.lt_ge_cases j (length o)) as [A|A]; [exact A|].
+        pose proof (Hok ax (proj2 Hax)) as E. fold j in E. rewrite nth_overflow in E by exact A. lia. }
+      unfold pick. rewrite (nth_indep _ O (nth nd (t_shape t) O)) by (rewrite map_length; exact Hj).
+      rewrite (map_nth (fun i => nth i (t_shape t) O) o nd j). unfold j. rewrite Hok by lia. reflexivity.
     - intros tid' ax [<-|[]] Hax. right. rewrite Tg in Hax. apply in_map_iff. exists ax. split; [reflexivity | apply in_seq; lia].
     - intros tid' [<-|[]]. split; [eapply dget_Some_key; eauto | assumption].
   Qed.
